@@ -5,7 +5,7 @@ Translation validation: for all grammars `G`, automata `A` (tables as dumped fro
 `lr1.Parser`) and certificates `C`, `Valid G A C` (decided by the executable checker, run on
 every generated table) implies the theorems below about `run A` — the model of `Parser.parse`.
 -/
-import Emboss.Lemmas.Lr1Sound
+import Emboss.Lemmas.Lr1Complete
 namespace Emboss.Lr1
 
 /-- **Soundness.**  If the tables validate and the parser accepts `w` with tree `t`, then `t`
@@ -25,5 +25,31 @@ every token list (also ill-formed ones) and every step budget. -/
 theorem C08_safe {G : Grammar} {A : Automaton} {C : Cert} (hv : Valid G A C)
     (w : List Token) (fuel : Nat) (m : String) : run A fuel w ≠ .internal m :=
   (runFrom_post hv w fuel init (inv_init w)).1 m
+
+/-- **Completeness.**  If the tables validate, every derivation `t` of `w` from the start
+symbol is found: with enough fuel the parser accepts `w` and returns exactly `t`. -/
+theorem C08_complete {G : Grammar} {A : Automaton} {C : Cert} (hv : Valid G A C)
+    {t : Tree} {w : List Token} (hd : Derives G t w) :
+    ∃ f0, ∀ fuel, f0 ≤ fuel → run A fuel w = .accept t :=
+  run_complete hv hd
+
+/-- **Unambiguity.**  A grammar whose tables validate has at most one parse tree per token
+string: an ambiguous grammar can never be validated, i.e. is never silently conflict-free. -/
+theorem C08_unambiguous {G : Grammar} {A : Automaton} {C : Cert} (hv : Valid G A C)
+    {t₁ t₂ : Tree} {w : List Token} (h₁ : Derives G t₁ w) (h₂ : Derives G t₂ w) : t₁ = t₂ := by
+  obtain ⟨f₁, hf₁⟩ := run_complete hv h₁
+  obtain ⟨f₂, hf₂⟩ := run_complete hv h₂
+  have e₁ := hf₁ (max f₁ f₂) (Nat.le_max_left _ _)
+  have e₂ := hf₂ (max f₁ f₂) (Nat.le_max_right _ _)
+  rw [e₁] at e₂
+  cases e₂; rfl
+
+/-- Accepting runs terminate (from completeness); for rejected inputs termination of the model
+run is not proved here: see `C08_error_position`, which is conditional on an error result. -/
+theorem C08_terminates_partial {G : Grammar} {A : Automaton} {C : Cert} (hv : Valid G A C)
+    {w : List Token} (hs : Sentence G w) : ∃ fuel t, run A fuel w = .accept t := by
+  obtain ⟨t, hd⟩ := hs
+  obtain ⟨f, hf⟩ := run_complete hv hd
+  exact ⟨f, t, hf f (Nat.le_refl _)⟩
 
 end Emboss.Lr1
